@@ -494,7 +494,8 @@ def call_ext(interp, ext, node, args, kwargs, st):
             if name == "diag":
                 interp.emit(st, "diag", node, arg=a0)
             if name in ("roll", "sort", "unique", "flip"):
-                interp.emit(st, "reorder", node, fn=name, target=a0)
+                interp.emit(st, "reorder", node, fn=name, target=a0, axis=kwargs.get("axis", args[2] if (name == "roll" and len(args) > 2)
+                                                                                  else (args[1] if (name != "roll" and len(args) > 1) else None)))
             if name == "roll":
                 sh = _arg(args, kwargs, 1, "shift")
                 tags = frozenset([("roll", sh.const if sh is not None and sh.has_const() else None)])
@@ -507,6 +508,9 @@ def call_ext(interp, ext, node, args, kwargs, st):
                     u = Val(dim=dim, kind=kind, deps=deps, pdeps=pdeps, born=t)
                     return Val(kind="tuple", items=(u, Val(dim=D0, kind="idx", deps=deps, born=t)), dim=TOP, born=t)
             sym = a0.sym if name in ("abs", "absolute", "array", "asarray", "copy") and a0.kind in ("float", "int") else None
+            if sym is None and name in ("array", "asarray") and a0.kind in ("list", "gen") and a0.items is None \
+                    and a0.elem is not None and a0.elem.sym is not None and a0.elem.kind in ("float", "int", "arr", "unknown"):
+                sym = a0.elem.sym        # array of a comprehension: one representative element (as for loop accumulators)
             if name in ("array", "asarray", "copy", "asanyarray", "atleast_1d", "squeeze"):
                 tags = tags | frozenset(tg for tg in a0.tags if isinstance(tg, tuple) and tg[0] in ("saved-centroid", "getter-of"))
             if name in ("array", "asarray", "copy", "asanyarray", "ascontiguousarray"):
@@ -552,6 +556,8 @@ def call_ext(interp, ext, node, args, kwargs, st):
             if name == "sum" and ax is None and a0.sym is not None and a0.sym.is_monomial() and len(a0.sym.atoms()) == 1 \
                     and next(iter(a0.sym.atoms())).startswith("norm<") and "norm" in a0.tags:
                 sym = Poly.atom("sum<" + next(iter(a0.sym.atoms())) + ">")
+            elif name == "sum" and ax is None and a0.sym is not None and a0.kind == "arr" and a0.items is None:
+                sym = a0.sym             # sum over the terms of a vectorised expression: the representative term
             return fresh(dim, kind=kind, tags=frozenset([("reduced", name)]) | keep_batch, sym=sym)
         if name in DIMLESS_ARG:
             if a0 is not None:
@@ -579,7 +585,7 @@ def call_ext(interp, ext, node, args, kwargs, st):
             return fresh(d if d != ANY else D0)
         if name in INDEXY:
             if name in ("argsort", "lexsort") and a0 is not None:
-                interp.emit(st, "reorder", node, fn=name, target=a0)
+                interp.emit(st, "reorder", node, fn=name, target=a0, axis=kwargs.get("axis"))
             tags = frozenset(["perm"]) if name in ("argsort", "lexsort") else frozenset()
             one_d = name in ("lexsort", "flatnonzero", "arange") or (name in ("argmax", "argmin") and _reduce_axis_kw(args, kwargs) is not None)
             return fresh(D0, kind="idx", tags=tags | (frozenset(["1d"]) if one_d else frozenset()) | frozenset([("index-from", name)]))
